@@ -148,7 +148,9 @@ def _parse_sheet_with_units(
     Read key/value options from `sheet_name` and return them as a dictionary.
     """
     # Read the entire sheet as-is (no header)
-    df_full = pd.read_excel(excel_file, sheet_name=sheet_name, header=None)
+    df_full = pd.read_excel(
+        excel_file, sheet_name=sheet_name, header=None, keep_default_na=False, na_values=[""]
+    )
 
     # Get the column names and units from the first two rows
     col_names, col_units = _get_column_names_and_units(df_full, sheet_name, row_units)
